@@ -52,7 +52,12 @@ impl Visitor for Rewriter {
         if let Expression::Include(def) = expr {
             let path = PathBuf::from(def.path.fragment.as_ref());
             if path.is_relative() {
-                def.path.fragment = self.base.join(path).to_string_lossy().to_string().into();
+                // Normalized so that every spelling of a file ends up as the
+                // same absolute path.
+                def.path.fragment = crate::path::normalize(self.base.join(path))
+                    .to_string_lossy()
+                    .to_string()
+                    .into();
             }
         }
         if let Expression::Import(def) = expr {
@@ -67,7 +72,12 @@ impl Visitor for Rewriter {
                 return;
             }
             if path.is_relative() {
-                def.path.fragment = self.base.join(path).to_string_lossy().to_string().into();
+                // Normalized so that every spelling of a file ends up as the
+                // same absolute path.
+                def.path.fragment = crate::path::normalize(self.base.join(path))
+                    .to_string_lossy()
+                    .to_string()
+                    .into();
             }
         }
     }
